@@ -4,6 +4,8 @@ import (
 	"zvh/engines/auth"
 	"zvh/engines/sortlim"
 	"zvh/engines/codec"
+	"zvh/engines/query"
+	"zvh/engines/coalesce"
 	"zvh/engines/seq"
 	"zvh/engines/store"
 )
@@ -13,6 +15,8 @@ func init() {
 		ownsReplay[n] = true
 	}
 	engines["seq"] = seq.Engine{}
+	engines["coalesce"] = coalesce.Engine{}
+	engines["query"] = query.Engine{}
 	engines["codec"] = codec.Engine{}
 	engines["sortlim"] = sortlim.Engine{}
 	engines["auth"] = auth.Engine{}
